@@ -234,7 +234,7 @@ def r114_body(ck, R, I):
         if r1 is None or r1.value is None:
             raise AnalysisError("Taus.tau_energy not analysed")
         its = iterators_in(r1.value)
-        ck.floor("R11.4", len(its), 2, "buffered iterator loops reached from the tau stage")
+        ck.floor("R11.4", len(its), 1, "buffered iterator loops reached from the tau stage")
         for sc in [n for n in walk([r1.value]) if n.op == "Scatter"]:
             v = sc.args[2]
             while v.op == "Phi":
